@@ -78,7 +78,12 @@ pub fn outcome_sig(p: &Prog, dedup: bool) -> String {
             for o in &c.output_gates {
                 feed(*o as u64);
             }
-            format!("ok:{}in/{}gates/{}out:{:016x}", c.input_gates.len(), c.gates.len(), c.output_gates.len(), h)
+            // the register form (the compiler's second output format) has to be identical as well
+            let reg = match crate::util::catch(|| garble_lang::register_circuit::Circuit::from(c)) {
+                Ok(r) => format!("{:016x}", crate::util::fnv(format!("{r:?}").as_bytes())),
+                Err(_) => "conversion-panicked".to_string(),
+            };
+            format!("ok:{}in/{}gates/{}out:{:016x}/register:{reg}", c.input_gates.len(), c.gates.len(), c.output_gates.len(), h)
         }
         CompileOutcome::Rejected(kind, _msg) => format!("rejected:{kind}"),
         CompileOutcome::Crashed(m) => format!("crashed:{}", crate::util::panic_signature(&m)).replace(' ', "_"),
